@@ -4,6 +4,8 @@
                       _filter_tasks (190-255), process (258-269)
      doit/cmd_base.py DoitCmdBase.execute 533-534   (sel_tasks = args or default_tasks)
      doit/cmd_run.py  Run._execute 205-219          (process; --single)
+     doit/doit_cmd.py DoitMain.process_args 208-221, run 273-297   (Section Cli at the end: variables `x=y` removed,
+                      the word `run`, the options of `doit run`; what is left is the selection)
    Definitions only.
 
    Every string the code handles here (task name, target / file name, wild-card pattern, element of the
@@ -412,6 +414,70 @@ Definition cmd_run_select (auto single : bool) (args : list name) (default_tasks
   select_core auto single (sel_tasks args default_tasks) tb.
 
 End Model.
+
+(* ---- the command line in front of the selection ----
+     doit/doit_cmd.py  DoitMain.process_args (208-221), DoitMain.run (273-297: variables removed, sub-command
+                       chosen, command.parse_execute(args))
+     doit/cmd_base.py  Command.parse_execute 161-167 -> CmdParse.parse (cmdparse.py 349-373: getopt.getopt, which
+                       stops at the first token that is no option)
+   Every argument is an opaque [name] -- the empty string, a blank, 'A' next to 'a', 'a ' are names like any other.
+   Oracles: is_var s = (not s.startswith('-')) and '=' in s   (such an argument sets a command line variable,
+   doit.get_var, by documented design and is no element of the selection);  is_run s = (s == 'run');
+   run_flag s = the option of `doit run` the token s spells.
+   Domain: the only sub-command name that occurs is 'run'; the tokens in option position (after the optional
+   'run', before the first token not starting with '-') are exact spellings of the bool options --single / -s and
+   --auto-delayed-regex or unknown options (CmdParseError: exit code 3); no '--', no '-', no option values, no
+   '--version' / '--help'; the loader has no command line options of its own. *)
+Inductive rflag := FSingle | FAuto.
+
+Section Cli.
+Variable has_star : name -> bool.
+Variable matches : name -> name -> bool.
+Variable basename_of : name -> name.
+Variable re_match : name -> name -> bool.
+Variable regex_name : name -> name -> name.
+Variable is_regex_name : name -> bool.
+Variable is_opt : name -> bool.
+Variable is_var : name -> bool.
+Variable is_run : name -> bool.
+Variable run_flag : name -> option rflag.
+
+(* process_args (208-221): every argument that is no variable is kept, in order *)
+Definition process_args (argv : list name) : list name := filter (fun a => negb (is_var a)) argv.
+
+(* run 277-282: `args[0] in sub_cmds` -> that command, popped; else the default command 'run' *)
+Definition strip_cmd (args : list name) : list name :=
+  match args with
+  | x :: r => if is_run x then r else args
+  | [] => []
+  end.
+
+(* CmdParse.parse of the Run command: leading option tokens; None = CmdParseError *)
+Fixpoint run_opts (single auto : bool) (l : list name) : option (bool * bool * list name) :=
+  match l with
+  | [] => Some (single, auto, [])
+  | x :: r =>
+    if is_opt x then
+      match run_flag x with
+      | Some FSingle => run_opts true auto r
+      | Some FAuto => run_opts single true r
+      | None => None
+      end
+    else Some (single, auto, l)
+  end.
+
+(* (--single, --auto-delayed-regex, positional arguments of the run command) *)
+Definition cli_split (argv : list name) : option (bool * bool * list name) :=
+  run_opts false false (strip_cmd (process_args argv)).
+
+(* `doit <argv>` with DOIT_CONFIG['default_tasks'] up to the point where the runner would be started *)
+Definition doit_main (argv : list name) (default_tasks : option (list name)) (tb : table) : result :=
+  match cli_split argv with
+  | None => RParseErr
+  | Some (single, auto, pos) =>
+    cmd_run_select has_star matches basename_of re_match regex_name is_regex_name is_opt auto single pos default_tasks tb
+  end.
+End Cli.
 
 (* ---- encoding for the correspondence check ---- *)
 Definition enc_ierr (e : ierr) : list Z :=
